@@ -76,6 +76,10 @@ def setCfg (d : DSt) (kv : String) : Option DSt :=
     | "wal.syncOrder" => if v == "flush,sync" then some d else none
     | "vlog.writeOrder" => if v == "append,sync" then some d else none
     | "recovery.logPointerOp" => if v == "le" then some d else none
+    | "oracle.seedOp" =>
+      if v == "ge" then some { d with cfg := { d.cfg with seedGe := true } }
+      else if v == "gt" then some { d with cfg := { d.cfg with seedGe := false } }
+      else none
     | "oracle.seed" =>
       -- "<sources>;<plus>"  e.g. mem,imm,tables;plus1
       match v.splitOn ";" with
@@ -98,7 +102,7 @@ def parseEnt? (t : String) : Option ESz :=
       let est ← natOf? est
       let plen ← natOf? plen
       let vlen ← natOf? vlen
-      pure { ent := ⟨id, vlen != 0⟩, est := est, plen := plen, vlen := vlen }
+      pure { ent := ⟨id, vlen != 0, plen + 9⟩, est := est, plen := plen, vlen := vlen }
     | _ => none
   | _ => none
 
@@ -205,6 +209,7 @@ def dumpLine (prop : String) (sync : Bool) (acked : List Nat) (started : List (N
 def dumpSpec (prop : String) (clean : Bool) : String :=
   if prop == "C09" then "open=ok acked=ok*|open=ok acked=na*"
   else if prop == "C12" then (if clean then "open=ok full=ok c10=ok*" else "open=ok*")
+  else if clean then "open=ok c10=ok acked=ok full=ok*|open=ok c10=ok acked=na full=ok*"   -- no crash since the last open: the prefix is everything
   else "open=ok c10=ok*"
 
 def reopen (d : DSt) (killed : String) (clean : Bool) : DSt × String :=
@@ -215,12 +220,13 @@ def reopen (d : DSt) (killed : String) (clean : Bool) : DSt × String :=
   let w := flushAll d.cfg none d.line st1
   -- after a crash the next versions may be reused by later transactions: only what survived counts as started
   let started' := d.started.filter (fun (b, _) => gs.any (fun g => g.bid == b))
-  let lastNonEmpty := match st1.segs.getLast? with
-    | some sg => !sg.recs.isEmpty
-    | none => false
+  -- `walSize` of the memtable that becomes active again = bytes of the records replayed into it
+  let lastWal := match st1.segs.getLast? with
+    | some sg => (sg.recs.map (·.wlen)).foldl (· + ·) 0
+    | none => 0
   ({ d with st := w.st, dead := none, closed := false, started := started',
             acked := d.acked.filter (fun b => gs.any (fun g => g.bid == b)),
-            by_ := { d.by_ with walN := 0, memWal := if lastNonEmpty then d.by_.memWal else 0,
+            by_ := { d.by_ with walN := 0, memWal := lastWal,
                                 vMap := d.by_.vOff } },
    out ++ "\t" ++ dumpSpec d.prop clean)
 
@@ -300,7 +306,7 @@ def step (d0 : DSt) (toks : List String) : DSt × String :=
       let mv := maxVer ((written d.st).filter (fun r => r.key != probeKey))
       let nt := d.st.nextTs
       let rel := if nt > mv then s!"gt:+{nt - mv}" else s!"le:+-{mv - nt}"
-      let e : ESz := { ent := ⟨probeKey, false⟩, est := est, plen := plen, vlen := 0 }
+      let e : ESz := { ent := ⟨probeKey, false, plen + 9⟩, est := est, plen := plen, vlen := 0 }
       let (decs, delta, by1) := decide_ d.cfg d.by_ false [e]
       let w := walk "C" none line 0 d.st (commitSteps d.cfg d.st line decs delta)
       let wf := flushAll d.cfg none line w.st
